@@ -556,10 +556,9 @@ func loModule(L *LState) int {
 	return 1
 }
 
-var loopdetection = &LUserData{}
-
 func loRequire(L *LState) int {
 	name := L.CheckString(1)
+	loopdetection := L.G.loopDetection
 	loaded := L.GetField(L.Get(RegistryIndex), "_LOADED")
 	lv := L.GetField(loaded, name)
 	if LVAsBool(lv) {
